@@ -1,6 +1,224 @@
-"""C03 rules (placeholder: fail-closed until the rules are implemented)."""
-from ..loader import AnalysisError
+"""C03 - the dependency graph is exactly the relation induced by shared (normalised) file paths."""
+import ast
+
+from ..index import dotted, walk_no_nested, loc, ancestors
+from .c01 import rule_flatten, rule_shape_independence
+from .persist import _calls
+
+CORE = "gwf.core"
+NORMALISERS = ("os.path.abspath", "os.path.normpath", "os.path.realpath")
+
+
+def rule_norm_path(ctx, r):
+    """Every path returned by _norm_path is fspath()-converted, resolved against the target's working directory when relative, and normalised."""
+    idx = ctx.index
+    np_ = idx.func(f"{CORE}:_norm_path")
+    con = f"{np_.module.relpath}::{np_.qual}"
+    wd, path = np_.positional_params()[:2]
+    rets = [n for n in walk_no_nested(np_.node) if isinstance(n, ast.Return)]
+    if not rets:
+        r.violation(con, "_norm_path returns nothing", np_.where)
+    fs_ok = any(isinstance(n, ast.Assign) and dotted(n.targets[0]) == path and isinstance(n.value, ast.Call)
+                and idx.canon(n.value.func, np_.module) in ("os.fspath", "builtins.str") for n in np_.node.body)
+    inline_fs = any(isinstance(c.func, (ast.Name, ast.Attribute)) and idx.canon(c.func, np_.module) == "os.fspath" for c in _calls(np_.node))
+    r.check(fs_ok or inline_fs, con + "::fspath", "path objects are converted with fspath() first", "path objects (os.PathLike) are not converted before normalising", np_.where)
+    for rt in rets:
+        v = rt.value
+        where = loc(rt, np_.module)
+        guards = [a for a in ancestors(rt) if isinstance(a, ast.If)]
+        under_isabs = None
+        for g in guards:
+            t = g.test
+            neg = False
+            if isinstance(t, ast.UnaryOp) and isinstance(t.op, ast.Not):
+                t, neg = t.operand, True
+            if isinstance(t, ast.Call) and idx.canon(t.func, np_.module) == "os.path.isabs":
+                in_body = any(rt in list(ast.walk(s)) for s in g.body)
+                under_isabs = in_body ^ neg
+        if not (isinstance(v, ast.Call) and isinstance(v.func, (ast.Name, ast.Attribute)) and idx.canon(v.func, np_.module) in NORMALISERS and len(v.args) == 1):
+            r.violation(con + "::normalised", f"`return {ast.unparse(v)[:70]}` hands out a path that was not passed through abspath/normpath: "
+                        "spellings like './x', 'd/../x' or '/wd//x' of one file no longer compare equal, so dependency edges, the multiple-provider "
+                        "check and clean's protection silently miss", where)
+            continue
+        inner = v.args[0]
+        joined = isinstance(inner, ast.Call) and idx.canon(inner.func, np_.module) == "os.path.join" and len(inner.args) == 2 and \
+            dotted(inner.args[0]) == wd and dotted(inner.args[1]) == path
+        bare = dotted(inner) == path
+        if joined:
+            r.ok(con + "::normalised", f"{idx.canon(v.func, np_.module)}(join({wd}, {path}))", where)
+        elif bare and under_isabs:
+            r.ok(con + "::normalised", f"absolute path -> {idx.canon(v.func, np_.module)}({path})", where)
+        elif bare:
+            r.violation(con + "::relative", f"`return {ast.unparse(v)}` resolves a possibly relative path without joining it to the target's working directory "
+                        "(it would be resolved against the directory gwf was started from)", where)
+        else:
+            r.violation(con + "::normalised", f"`return {ast.unparse(v)[:70]}` does not normalise join(working_dir, path)", where)
+    nps = idx.func(f"{CORE}:_norm_paths")
+    txt = ast.unparse(nps.node)
+    p = nps.positional_params()
+    ok = False
+    for n in walk_no_nested(nps.node):
+        if isinstance(n, ast.Return) and isinstance(n.value, (ast.ListComp, ast.GeneratorExp)):
+            g = n.value.generators[0]
+            ok = not g.ifs and dotted(g.iter) == p[1] and ast.unparse(n.value.elt) == f"_norm_path({p[0]}, {dotted(g.target)})"
+    extra = [n for n in nps.node.body if not isinstance(n, (ast.Return, ast.Expr))]
+    r.check(ok and not extra, f"{nps.module.relpath}::{nps.qual}", "every path goes through _norm_path with the target's working directory",
+            "_norm_paths does not simply map _norm_path(working_dir, p) over all paths", nps.where)
+
+
+def _loops_over(fn, accessor):
+    """[(outer For, inner For)] where inner iterates <outer var>.<accessor>()."""
+    out = []
+    for n in walk_no_nested(fn.node):
+        if isinstance(n, ast.For) and isinstance(n.target, ast.Name):
+            for m in ast.walk(n):
+                if isinstance(m, ast.For) and m is not n and ast.unparse(m.iter) == f"{n.target.id}.{accessor}()" and isinstance(m.target, ast.Name):
+                    out.append((n, m))
+    return out
+
+
+def rule_graph_construction(ctx, r):
+    idx = ctx.index
+    ft = idx.func(f"{CORE}:Graph.from_targets")
+    con = f"{ft.module.relpath}::{ft.qual}"
+    out_loops = _loops_over(ft, "flattened_outputs")
+    in_loops = _loops_over(ft, "flattened_inputs")
+    # provides writer
+    prov_stores = []
+    for outer, inner in out_loops:
+        for n in ast.walk(inner):
+            if isinstance(n, ast.Assign) and isinstance(n.targets[0], ast.Subscript) and dotted(n.targets[0].value) == "provides":
+                ok = dotted(n.targets[0].slice) == inner.target.id and dotted(n.value) == outer.target.id
+                prov_stores.append((n, outer, ok))
+    other_stores = [n for n in walk_no_nested(ft.node) if isinstance(n, ast.Assign) and isinstance(n.targets[0], ast.Subscript)
+                    and dotted(n.targets[0].value) == "provides" and not any(n is s[0] for s in prov_stores)]
+    r.check(prov_stores and all(s[2] for s in prov_stores) and not other_stores, con + "::provides", "provides[path] = target for every flattened output of every target",
+            "`provides` is not filled with exactly `output path -> producing target` for every flattened output", ft.where)
+    # dependencies writer
+    dep_adds = []
+    readers = []
+    for outer, inner in in_loops:
+        for n in ast.walk(inner):
+            if isinstance(n, ast.Call) and isinstance(n.func, ast.Attribute) and n.func.attr == "add" and isinstance(n.func.value, ast.Subscript) \
+                    and dotted(n.func.value.value) == "dependencies":
+                ok = dotted(n.func.value.slice) == outer.target.id and n.args and ast.unparse(n.args[0]) == f"provides[{inner.target.id}]"
+                guard = any(isinstance(a, ast.If) and ast.unparse(a.test) == f"{inner.target.id} in provides" and any(n in list(ast.walk(s)) for s in a.body)
+                            for a in ancestors(n))
+                dep_adds.append((n, outer, ok and guard))
+                readers.append(outer)
+    r.check(dep_adds and all(d[2] for d in dep_adds), con + "::dependencies", "dependencies[target].add(provides[path]) for every flattened input that some target provides",
+            "`dependencies` is not built as `target -> producers of its flattened inputs`", ft.where)
+    # R2 order independence: every store into provides precedes (in statement order) the loop that resolves inputs against it
+    if prov_stores and dep_adds:
+        last_store = max(getattr(s[1], "end_lineno", s[1].lineno) for s in prov_stores)
+        first_read = min(rd.lineno for rd in readers)
+        same_loop = any(s[1] is d[1] for s in prov_stores for d in dep_adds)
+        r.check(last_store < first_read and not same_loop, con + "::order-independence", "all producers are registered before any input is resolved",
+                "inputs are resolved against `provides` while it is still being filled: whether an edge exists depends on the order in which targets were defined "
+                "(a consumer defined before its producer loses the dependency)", ft.where)
+    # unresolved
+    unres_ok = any(isinstance(n, ast.Call) and isinstance(n.func, ast.Attribute) and n.func.attr == "add" and dotted(n.func.value) == "unresolved"
+                   for _o, inner in in_loops for n in ast.walk(inner))
+    r.check(unres_ok, con + "::unresolved", "inputs nobody provides are collected in `unresolved`", "inputs that no target provides are not recorded as unresolved", ft.where)
+    # dependents by exact inversion
+    inv_ok = False
+    for n in walk_no_nested(ft.node):
+        if isinstance(n, ast.For) and ast.unparse(n.iter) == "dependencies.items()" and isinstance(n.target, ast.Tuple) and len(n.target.elts) == 2:
+            t, ds = [dotted(e) for e in n.target.elts]
+            for m in ast.walk(n):
+                if isinstance(m, ast.For) and m is not n and dotted(m.iter) == ds and isinstance(m.target, ast.Name):
+                    for c in _calls(m):
+                        if isinstance(c.func, ast.Attribute) and c.func.attr == "add" and ast.unparse(c.func.value) == f"dependents[{m.target.id}]" \
+                                and c.args and dotted(c.args[0]) == t:
+                            inv_ok = True
+    other_dependents = [n for n in walk_no_nested(ft.node) if isinstance(n, ast.Call) and isinstance(n.func, ast.Attribute) and n.func.attr in ("add", "update")
+                        and isinstance(n.func.value, ast.Subscript) and dotted(n.func.value.value) == "dependents"]
+    r.check(inv_ok and len(other_dependents) == 1, con + "::dependents", "dependents[dep].add(target) for target, deps in dependencies.items() (exact inverse)",
+            "`dependents` is not the exact inverse of `dependencies`", ft.where)
+    # constructor keywords
+    ret = [n for n in walk_no_nested(ft.node) if isinstance(n, ast.Return)]
+    ok = False
+    if ret and isinstance(ret[-1].value, ast.Call):
+        kws = {k.arg: dotted(k.value) for k in ret[-1].value.keywords}
+        ok = all(kws.get(k) == k for k in ("targets", "provides", "dependencies", "dependents", "unresolved"))
+    r.check(ok, con + "::result", "Graph(targets=, provides=, dependencies=, dependents=, unresolved=) each from its own map",
+            "the graph object is not built from the five maps under their own names (e.g. dependencies/dependents swapped)", ft.where)
+    # targets dict keyed by name
+    td = any(isinstance(n, ast.Assign) and isinstance(n.value, ast.DictComp) and ast.unparse(n.value.key).endswith(".name") and dotted(n.targets[0]) == "targets"
+             for n in walk_no_nested(ft.node))
+    r.check(td, con + "::targets", "targets = {target.name: target}", "the graph's target table is not keyed by target name", ft.where)
+
+
+def rule_endpoints(ctx, r):
+    idx = ctx.index
+    ep = idx.func(f"{CORE}:Graph.endpoints")
+    rets = [n for n in walk_no_nested(ep.node) if isinstance(n, ast.Return)]
+    txt = ast.unparse(rets[0].value).replace(" ", "") if rets else ""
+    ok = txt in ("set(self.targets.values())-set(self.dependents.keys())", "set(self.targets.values())-set(self.dependents)",
+                 "set(self.targets.values())-self.dependents.keys()", "set(self.targets.values()).difference(self.dependents)",
+                 "{tfortinself.targets.values()ifnotself.dependents.get(t)}")
+    r.check(ok, f"{ep.module.relpath}::{ep.qual}", "endpoints = all targets minus those something depends on",
+            f"Graph.endpoints returns `{txt[:80]}`, not `targets - keys of dependents`", ep.where)
+    # phantom keys: dependents is a defaultdict; a subscript load inserts a key, which removes that target from endpoints()
+    res = ctx.resolver
+    for name, root in res.command_roots().items():
+        visited, _effs, _u = res.reach(root)
+        fns = {k[0] for k in visited}
+        loads = []
+        for fk in fns:
+            f = idx.functions[fk]
+            for n in walk_no_nested(f.node):
+                if isinstance(n, ast.Subscript) and isinstance(n.ctx, ast.Load) and isinstance(n.value, ast.Attribute) and n.value.attr == "dependents":
+                    loads.append((f, n))
+        calls_ep = any(isinstance(c.func, ast.Attribute) and c.func.attr == "endpoints" for fk in fns for c in _calls(idx.functions[fk].node))
+        if loads and calls_ep and f"{CORE}:Graph.endpoints" in fns:
+            f, n = loads[0]
+            r.violation(f"{root.module.relpath}::{root.qual}::phantom-dependents", f"`{ast.unparse(n)}` reads the defaultdict `dependents` by subscript (which inserts "
+                        "an empty entry for a target nothing depends on) in a command that also computes endpoints(): such targets stop being endpoints", loc(n, f.module))
+        elif loads:
+            r.ok(f"{root.module.relpath}::{root.qual}::phantom-dependents", f"{len(loads)} subscript read(s) of dependents, endpoints() not used by this command", root.where)
+
+
+def rule_info(ctx, r):
+    idx = ctx.index
+    pj = idx.func("gwf.plugins.info:print_json")
+    pairs = {}
+    for n in walk_no_nested(pj.node):
+        if isinstance(n, ast.Tuple) and len(n.elts) == 2 and isinstance(n.elts[0], ast.Constant) and n.elts[0].value in ("dependencies", "dependents", "inputs", "outputs", "spec", "options"):
+            pairs[n.elts[0].value] = ast.unparse(n.elts[1])
+    for label in ("dependencies", "dependents"):
+        r.check(f"graph.{label}[target]" in pairs.get(label, ""), f"{pj.module.relpath}::{pj.qual}::{label}", f"'{label}' <- graph.{label}[target]",
+                f"info reports `{pairs.get(label)}` under the label '{label}'", pj.where)
+    for label in ("inputs", "outputs", "spec"):
+        r.check(pairs.get(label) == f"target.{label}", f"{pj.module.relpath}::{pj.qual}::{label}", f"'{label}' <- target.{label}",
+                f"info reports `{pairs.get(label)}` under the label '{label}'", pj.where)
+    pp = idx.func("gwf.plugins.info:print_pretty")
+    seq = []
+    for st in ast.walk(pp.node):
+        if isinstance(st, ast.Expr) and isinstance(st.value, ast.Call):
+            seq.append(st.value)
+    label = None
+    got = {}
+    for c in seq:
+        if dotted(c.func) == "print_label" and c.args and isinstance(c.args[0], ast.Constant):
+            label = c.args[0].value
+        elif label and c.args:
+            got.setdefault(label, ast.unparse(c.args[0]))
+    r.check("graph.dependents[target]" in got.get("Dependents:", ""), f"{pp.module.relpath}::{pp.qual}::Dependents", "'Dependents:' <- graph.dependents[target]",
+            f"the pretty printer shows `{got.get('Dependents:')}` under 'Dependents:'", pp.where)
+    r.check(got.get("Inputs:") == "target.inputs" and got.get("Outputs:") == "target.outputs", f"{pp.module.relpath}::{pp.qual}::files", "Inputs/Outputs labels match",
+            f"the pretty printer shows inputs `{got.get('Inputs:')}` / outputs `{got.get('Outputs:')}`", pp.where)
 
 
 def run(ctx):
-    raise AnalysisError("rules for C03 not implemented yet")
+    r1 = ctx.rule("R1", "every path is fspath()-converted, joined to the target's working directory when relative, and normalised", min_instances=3)
+    rule_norm_path(ctx, r1)
+    r2 = ctx.rule("R2", "provides / dependencies / dependents are written exactly as the file relation prescribes, producers registered first", min_instances=7)
+    rule_graph_construction(ctx, r2)
+    r3 = ctx.rule("R3", "endpoints are the targets nothing depends on; no phantom entries in the defaultdicts before endpoints()", min_instances=2)
+    rule_endpoints(ctx, r3)
+    r4 = ctx.rule("R4", "`gwf info` reports the graph's own relations under the right labels", min_instances=5)
+    rule_info(ctx, r4)
+    r5 = ctx.rule("R5", "flattening and accessors (shared with C01): the relation depends only on the declared path sets", min_instances=6)
+    rule_flatten(ctx, r5)
+    rule_shape_independence(ctx, r5)
